@@ -43,13 +43,21 @@ ClientInit(side, mode, appid) ==
     result |-> "empty", ws |-> FALSE, everConn |-> FALSE, stopping |-> FALSE, stoppedRC |-> FALSE,
     allocLen |-> 0, inputNameplates |-> {}, inputNp |-> "-", wordlist |-> FALSE, helper |-> FALSE,
     events |-> <<>>, fired |-> {}, closedCalls |-> 0, apiClosed |-> FALSE,
+    reent |-> "-", reentFired |-> FALSE,
     errs |-> <<>>, raised |-> "", logged |-> <<>>, stack |-> <<>>, tx |-> <<>>, lastRet |-> "-" ]
 
 Push(c, frames) == [c EXCEPT !.stack = frames \o c.stack]
 \* RendezvousConnector._tx: assert self._ws
 Raise(c, what)  == [c EXCEPT !.stack = <<>>, !.raised = what]
 Tx(c, fr)       == IF c.ws THEN [c EXCEPT !.tx = Append(@, fr)] ELSE Raise(c, "assert:RC._tx:_ws")
-Event(c, k, v)  == [c EXCEPT !.events = Append(@, [k |-> k, v |-> v])]
+\* An application callback.  A delegate may call back into the wormhole from inside its callback:
+\* `reent` = the kind of event whose handler was armed to call close() re-entrantly (depth-first,
+\* i.e. before the remaining outputs of the transition that is delivering the event).
+Event(c, k, v)  ==
+    LET c1 == [c EXCEPT !.events = Append(@, [k |-> k, v |-> v])] IN
+    IF c.mode = "delegated" /\ c.reent = k
+    THEN [c1 EXCEPT !.reent = "-", !.reentFired = TRUE, !.stack = <<In("B", "close", NoArgs)>> \o @]
+    ELSE c1
 \* one-shot observers of _DeferredWormhole fire at most once; the delegate is called every time
 OneShot(c, k, v) == IF c.mode = "deferred"
                     THEN IF k \in c.fired THEN c ELSE Event([c EXCEPT !.fired = @ \cup {k}], k, v)
